@@ -1,6 +1,6 @@
 """C19 - port discovery picks only EiBotBoards, in enumeration order, and finds by name.
 
-All ordered lists of 0..4 (thorough 5) enumerated ports over a 13-descriptor alphabet x
+All ordered lists of 0..4 (thorough 5) enumerated ports over a 14-descriptor alphabet x
 lookup names derived from the list itself (every reported name, serial tag and port name in
 three casings), through both layers with the enumerator replaced by a stub.
 """
@@ -28,6 +28,8 @@ DESCRIPTORS = [
     ("/dev/ttyACM5", "EiBotBoard", VIDPID + " SER=North Rig LOCATION=1-5"),
     ("COM7", "USB Serial Device (COM7)", VIDPID + " SER=South Rig LOCATION=1-6"),
     ("/dev/cu.usbmodem5", "EiBotBoard,Big Bot", VIDPID + " SER=Big Bot LOCATION=20-5"),
+    # named in the description only (no serial tag in the hardware id)
+    ("/dev/cu.usbmodem7", "EiBotBoard,Solo", VIDPID + " LOCATION=20-7"),
 ]
 
 
@@ -205,6 +207,48 @@ def check_raising():
     return out
 
 
+def short_lists():
+    out = [()]
+    for length in (1, 2):
+        out += list(itertools.product(range(len(DESCRIPTORS)), repeat=length))
+    return out
+
+
+def check_reuse(combo_1, combo_2):
+    """One EBB3 object used for two discoveries in a row (unplug / replug between them): the
+    second answer depends on the second enumeration only."""
+    _legacy, ebb3 = _libs()
+    obj = ebb3.EBB3()
+    out = []
+    for combo in (combo_1, combo_2):
+        ports = [DESCRIPTORS[k] for k in combo]
+        with Env(ports):
+            try:
+                obj.find_first()
+            except Exception as exc:        # pylint: disable=broad-except
+                return [f"find_first raised {type(exc).__name__}: {exc}"]
+        want = ref_first(ports)
+        if obj.port_name != want:
+            out.append(f"one EBB3 object, enumerations {[DESCRIPTORS[k][0] for k in combo_1]} then "
+                       f"{[DESCRIPTORS[k][0] for k in combo_2]}: after the enumeration "
+                       f"{[p[0] for p in ports]} first-board discovery gave {obj.port_name!r}, "
+                       f"expected {want!r}")
+    return out
+
+
+def _reuse_chunk(firsts):
+    part = core.Part()
+    lists = short_lists()
+    for combo_1 in firsts:
+        for combo_2 in lists:
+            for msg in check_reuse(combo_1, combo_2):
+                part.violation(f"reuse:{combo_1}:{combo_2}", msg,
+                               {"kind": "reuse", "first": list(combo_1), "second": list(combo_2)})
+            part.count("reuse_histories")
+            part.count("calls", 2)
+    return part
+
+
 def _chunk(args):
     firsts, length = args
     part = core.Part()
@@ -237,6 +281,7 @@ def run(ctx):
         for chunk in core.split(range(len(DESCRIPTORS)), len(DESCRIPTORS)):
             jobs.append((chunk, length))
     part = core.fan_out(ctx, _chunk, jobs)
+    part.merge(core.fan_out(ctx, _reuse_chunk, core.split(short_lists(), 32)))
     for clause, msg, _l in check_raising():
         part.violation(clause, msg, {"kind": "raising"})
     # seed: one extra list with a rotated descriptor order, length 5
@@ -257,9 +302,12 @@ def run(ctx):
         "rule": f"all ordered port lists of length 0..{max_len} over {len(DESCRIPTORS)} descriptor kinds (named / "
                 "unnamed EBB, Windows SER=/SNR= styles, VID:PID-only, foreign devices, a name "
                 "that prefixes another, names and tags containing a blank) x every lookup derived from the list (reported names, "
-                "serial tags, port names; original/upper/lower case), both layers; non-trivial = "
+                "serial tags, port names; original/upper/lower case), both layers; all ordered pairs "
+                "of lists of length 0..2 discovered one after the other by the same EBB3 object; "
+                "non-trivial = "
                 "lists of >= 2 ports containing a board",
         "samples": core.rotate(part.samples, ctx.seed, 4),
+        "reuse_histories": cnt.get("reuse_histories", 0),
         "descriptor_alphabet": [list(d) for d in DESCRIPTORS],
         "exhaustive": True,
     }
@@ -269,6 +317,8 @@ def run(ctx):
 
 
 def replay(case):
+    if case["kind"] == "reuse":
+        return check_reuse(tuple(case["first"]), tuple(case["second"]))
     if case["kind"] == "raising":
         return [m for _c, m, _l in check_raising()]
     ports = [DESCRIPTORS[k] for k in case["combo"]]
